@@ -265,6 +265,14 @@ def run_case(seed):
     # their k-th state must be what the composed tool models (and the tools) wrote after hop k
     nspec = min(len(spec_ops), len(model_imgs))
     if nspec:
+        goods = [pf_sx(pf0)] + [o[3][1] for o in spec_ops[:nspec] if o[0] == 1 and o[3][0] == 0]
+        for gi, gsx in enumerate(goods):
+            stg, gb = model.call('goodb', gsx)
+            count(f"hypothesis 'good' of C14_full_chain holds={stg == 'ok' and gb == 1}")
+            if not (stg == 'ok' and gb == 1):
+                out['disagreements'].append(dict(seed=seed, ops=desc_ops, kind='hypothesis',
+                                                 what=("the initial plotfile" if gi == 0 else "a sibling plotfile") + " does not satisfy 'good' (goodb = false)",
+                                                 correspondence='Writers.GoodB.goodb'))
         st2, sp = model.call('full_chain', [pf_sx(pf0), spec_ops[:nspec]])
         sdesc = dict(seed=seed, ops=desc_ops, fields0=c01.reader_keys(pf0.fields), meta=pf0.meta)
         if st2 != 'ok':
@@ -416,6 +424,8 @@ def run(tier, seed):
     rep.obligation('correspondence: the composition of the extracted writer models (colander, combine, chef), each fed the previous '
                    "model's output image, = the directory written by the tool chain after every hop",
                    not any(v[0].get('kind') == 'model-vs-impl' for v in rep.violations))
+    rep.obligation("hypotheses of C14_full_chain on every case: goodb = true for the initial plotfile and every sibling (proved sound for 'good')",
+                   not any(v[0].get('kind') == 'hypothesis' for v in rep.violations))
     rep.obligation('theorem instance (C14_full_chain) on every case: the images of the composed pure operations (colander_spec, combine_pure, '
                    'chef_spec) = the images written by the composed tool models after every hop, evaluated by the extracted code',
                    not any(v[0].get('kind') in ('spec-vs-model', 'spec', 'encode') for v in rep.violations))
